@@ -1,1 +1,235 @@
-"""helpers shared by checks"""
+"""Builders and environment stubs shared by the checks (abstract parent runtime, abstract data object, find stubs)."""
+import re, itertools
+import z3
+from mirsym.exec import Executor, State, Unsupported
+from mirsym.values import *
+from mirsym.models import ALL_MODELS
+from mirsym.models.core import ret, panic
+from mirsym.models.maps import MapV, SetV
+from mirsym.models.iters import mk_list_iter
+
+
+def models_with(overrides):
+    return [(re.compile(p, re.S), f, n) for p, f, n in overrides] + list(ALL_MODELS)
+
+
+# ---------------------------------------------------------------- liquid values
+def scalar_str(s):
+    return Adt('ScalarCow', None, [Adt('ScalarCowEnum', 'Str', [StrV(s, 'KStringCow')])])
+
+
+def scalar_int(e):
+    return Adt('ScalarCow', None, [Adt('ScalarCowEnum', 'Integer', [e if isinstance(e, Int) else Int(e, 'i64')])])
+
+
+def scalar_float(e):
+    return Adt('ScalarCow', None, [Adt('ScalarCowEnum', 'Float', [e])])
+
+
+def scalar_bool(e):
+    return Adt('ScalarCow', None, [Adt('ScalarCowEnum', 'Bool', [e if isinstance(e, Bool) else Bool(e)])])
+
+
+def value_scalar(sc):
+    return Adt('Value', 'Scalar', [sc])
+
+
+VALUE_NIL = Adt('Value', 'Nil', [])
+
+
+def mk_path(st, keys):
+    """&[ScalarCow] over string keys"""
+    return st.ref(VecV([scalar_str(k) for k in keys], 'slice'))
+
+
+def path_keys(st, pref):
+    v = st.deref_all(pref)
+    out = []
+    for it in v.items:
+        inner = it.items[0]
+        if inner.variant == 'Str':
+            out.append(inner.items[0].concrete())
+        elif inner.variant == 'Integer':
+            out.append(('int', str(inner.items[0])))
+        else:
+            out.append((inner.variant,))
+    return tuple(out)
+
+
+def method_of(callee):
+    m = re.search(r'::(\w+)(?:::<.*>)?$', callee, re.S)
+    return m.group(1) if m else callee
+
+
+def log_call(st, who, what):
+    st.env['calls'] = st.env.get('calls', ()) + ((who, what),)
+
+
+def calls(st, who=None):
+    return [c for c in st.env.get('calls', ()) if who is None or c[0] == who]
+
+
+# ---------------------------------------------------------------- abstract parent runtime
+class ParentEnv:
+    """Abstract runtime satisfying Inv: get(p) Ok <=> try_get(p) Some (same value); roots = {k | try_get([k]) is Some};
+    empty path -> missing.  Deeper paths resolve nondeterministically (one Bool per path), only below a root that resolves."""
+
+    def __init__(self, roots, tag='P'):
+        self.roots = frozenset(roots); self.tag = tag
+        self.has = {}
+
+    def has_var(self, keys):
+        if keys not in self.has:
+            self.has[keys] = z3.Bool(f'{self.tag}_has_{"_".join(map(str, keys))}')
+        return self.has[keys]
+
+    def resolves(self, ex, st, keys):
+        """generator (st, bool)"""
+        if not keys or keys[0] not in self.roots:
+            yield st, False
+        elif len(keys) == 1:
+            yield st, True
+        else:
+            yield from ex.fork_bool(st, self.has_var(keys))
+
+    def value(self, keys):
+        return Adt('ValueCow', 'Owned', [Opaque((self.tag + 'VAL', keys))])
+
+    def handler(self, ctx, me, args, st):
+        m = method_of(ctx.callee)
+        ex = ctx.ex
+        if m in ('try_get', 'get'):
+            keys = path_keys(st, args[1])
+            log_call(st, self.tag, (m, keys))
+            def g():
+                for s2, ok in self.resolves(ex, st, keys):
+                    if m == 'try_get':
+                        yield s2, 'ret', (Some(self.value(keys)) if ok else NONE)
+                    else:
+                        yield s2, 'ret', (Ok(self.value(keys)) if ok else Err(Adt('LiquidError', None, [Opaque((self.tag + 'ERR', keys))])))
+            return g()
+        if m == 'roots':
+            log_call(st, self.tag, ('roots',))
+            return ret(st, SetV(self.roots))
+        if m in ('set_global', 'set_index'):
+            k = st.deref_all(args[1]).concrete()
+            log_call(st, self.tag, (m, k, repr(args[2])))
+            return ret(st, Some(Opaque((self.tag + '_' + m + '_old', k))))
+        if m == 'get_index':
+            k = st.deref_all(args[1]).concrete()
+            log_call(st, self.tag, (m, k))
+            return ret(st, Some(Adt('ValueCow', 'Owned', [Opaque((self.tag + 'IDX', k))])))
+        if m == 'registers':
+            log_call(st, self.tag, ('registers',))
+            return ret(st, st.ref(Opaque((self.tag + '_REGISTERS',))))
+        if m == 'name':
+            log_call(st, self.tag, ('name',))
+            return ret(st, Some(st.ref(StrV(self.tag + 'name', 'str'))))
+        if m == 'partials':
+            log_call(st, self.tag, ('partials',))
+            return ret(st, st.ref(Opaque((self.tag + '_PARTIALS',))))
+        return None
+
+    def abs(self):
+        return Abs('parent:' + self.tag, self.handler)
+
+
+# ---------------------------------------------------------------- abstract data object (ObjectView) with a concrete key set
+class DataEnv:
+    def __init__(self, keys, tag='D'):
+        self.keys = tuple(keys); self.tag = tag
+
+    def handler(self, ctx, me, args, st):
+        m = method_of(ctx.callee)
+        if m == 'contains_key':
+            k = st.deref_all(args[1]).concrete()
+            log_call(st, self.tag, (m, k))
+            return ret(st, Bool(k in self.keys))
+        if m == 'get':
+            k = st.deref_all(args[1]).concrete()
+            log_call(st, self.tag, (m, k))
+            return ret(st, Some(st.ref(Opaque((self.tag + 'VAL', k)))) if k in self.keys else NONE)
+        if m == 'as_value':
+            return ret(st, args[0])
+        if m == 'keys':
+            return ret(st, st.ref(mk_list_iter([StrV(k, 'KStringCow') for k in self.keys]), True))
+        if m == 'size':
+            return ret(st, Int(len(self.keys), 'i64'))
+        return None
+
+    def abs(self):
+        return Abs('data:' + self.tag, self.handler, self)
+
+
+# ---------------------------------------------------------------- find / try_find stubs (contract: find Ok <=> try_find Some, same value)
+class FindEnv:
+    def __init__(self):
+        self.vars = {}
+
+    def data_keys(self, st, vref):
+        v = st.deref_all(vref)
+        if isinstance(v, Abs) and isinstance(v.data, DataEnv): return v.data.keys, v.data.tag
+        if isinstance(v, MapV): return v.keys, 'M'
+        raise Unsupported(f'find stub on {v!r}')
+
+    def found(self, ex, st, vref, keys):
+        dk, tag = self.data_keys(st, vref)
+        if not keys or keys[0] not in dk:
+            yield st, False, tag
+        elif len(keys) == 1:
+            yield st, True, tag
+        else:
+            b = self.vars.setdefault((tag, keys), z3.Bool(f'F_{tag}_{"_".join(map(str, keys))}'))
+            for s2, v in ex.fork_bool(st, b):
+                yield s2, v, tag
+
+    def models(self):
+        def m_try_find(ctx, args, st):
+            keys = path_keys(st, args[1])
+            log_call(st, 'find', ('try_find', keys))
+            def g():
+                for s2, ok, tag in self.found(ctx.ex, st, args[0], keys):
+                    yield s2, 'ret', (Some(Adt('ValueCow', 'Borrowed', [s2.ref(found_token(tag, keys))])) if ok else NONE)
+            return g()
+        def m_find(ctx, args, st):
+            keys = path_keys(st, args[1])
+            log_call(st, 'find', ('find', keys))
+            def g():
+                for s2, ok, tag in self.found(ctx.ex, st, args[0], keys):
+                    yield s2, 'ret', (Ok(Adt('ValueCow', 'Borrowed', [s2.ref(found_token(tag, keys))])) if ok else Err(Adt('LiquidError', None, [Opaque(('FINDERR', tag, keys))])))
+            return g()
+        return [(r'^(?:liquid_core::)?(?:model::)?find::try_find$', m_try_find, 'stub:try_find(uninterpreted, contract find<=>try_find)'),
+                (r'^(?:liquid_core::)?(?:model::)?find::find$', m_find, 'stub:find(uninterpreted, contract find<=>try_find)')]
+
+
+def found_handler(ctx, me, args, st):
+    m = method_of(ctx.callee)
+    if m == 'to_value':
+        return ret(st, Opaque(('VALUEOF', me.data)))
+    return None
+
+
+def found_token(tag, keys):
+    return Abs('found', found_handler, ('FOUND', tag, keys))
+
+
+def value_token(v):
+    """canonical description of a ValueCow result built from stub tokens (ignores Owned/Borrowed, which is representation)"""
+    if isinstance(v, Adt) and v.ty == 'ValueCow':
+        return value_token(v.items[0])
+    if isinstance(v, Ref):
+        return ('ref', v.alloc, v.path)   # callers pass st-resolved values; see value_token_st
+    if isinstance(v, Abs):
+        return v.data
+    if isinstance(v, Opaque):
+        t = v.tag
+        while isinstance(t, tuple) and t and t[0] == 'VALUEOF': t = t[1]
+        return t
+    return repr(v)
+
+
+def value_token_st(st, v):
+    while isinstance(v, Ref): v = st.deref(v)
+    if isinstance(v, Adt) and v.ty == 'ValueCow':
+        return value_token_st(st, v.items[0])
+    return value_token(v)
